@@ -172,6 +172,8 @@ theorem key_determines {v : Val} {τθ τs : Ty} (hn : namesOk S = true) (hv : V
   | int b s x hw => exact key_scalar_aux hn (int_scalar s hw) rfl hk heq
   | float b x hw => exact key_scalar_aux hn (float_scalar hw) rfl hk heq
   | tuple _ => exact (key_noQ_aux hn hk heq).elim
+  | array _ _ => exact (key_noQ_aux hn hk heq).elim
+  | vec _ => exact (key_noQ_aux hn hk heq).elim
   | closure _ _ _ => exact (key_noQ_aux hn hk heq).elim
   | fn _ _ => exact (key_noQ_aux hn hk heq).elim
   | @enumV n idx args _ fts h1 h2 _ =>
